@@ -778,7 +778,10 @@ def deviations(p):
     """-> list of (hypothesis-text, counterexample-value, finding-id)"""
     d = []
     if p['in_ct'] in FLT_TYPES and p['out_ct'] in INT_TYPES:
-        d.append(('(hnan : v ≠ FV.nan)', 'FV.nan', 'F12'))
+        # F12: the deviation exists only while the primitive has no NaN test (`x != x`); decided from the translated term,
+        # so the same generator serves the tree before and after the repair
+        if '(¬ FV.feq v v)' not in p.get('term', ''):
+            d.append(('(hnan : v ≠ FV.nan)', 'FV.nan', 'F12'))
         if p['out_ct'] in ('long', 'longlong'):
             d.append(('(hgap : FV.notInGap ((9223372036854775807 : Int) : Rat) ((9223372036854775808 : Int) : Rat) v)',
                       '(FV.fin ((9223372036854775808 : Int) : Rat))', 'F17'))
